@@ -32,6 +32,7 @@
 #include <netinet/in.h>
 #include <netinet/tcp.h>
 #include <poll.h>
+#include <pthread.h>
 #include <signal.h>
 #include <setjmp.h>
 #include <sys/wait.h>
@@ -354,6 +355,14 @@ static void do_misc(int e)
     }
 }
 
+static void *close_later(void *arg)
+{
+    struct timespec ts = { 0, 300 * 1000000L };
+    nanosleep(&ts, NULL);
+    close(*(int *)arg);
+    return NULL;
+}
+
 static void do_accept(void)
 {
     struct xcm_attr_map *a = nb_attrs();
@@ -531,9 +540,10 @@ static void run(void)
 	setenv("XCM_CTL", "/nonexistent-verif", 1);
     bool garbage2 = strcmp(scen, "garbage2") == 0;
     bool longidle = strcmp(scen, "longidle") == 0;
+    bool accblk = strcmp(scen, "accblk") == 0;
     bool normal = strcmp(scen, "normal") == 0 || ctlflood || garbage2 || longidle, refused = strcmp(scen, "refused") == 0,
 	 silent = strcmp(scen, "silent") == 0, release = strcmp(scen, "release") == 0,
-	 mute = strcmp(scen, "mute") == 0, garbage = strcmp(scen, "garbage") == 0, idle = strcmp(scen, "idle") == 0;
+	 mute = strcmp(scen, "mute") == 0, garbage = strcmp(scen, "garbage") == 0, idle = strcmp(scen, "idle") == 0 || accblk;
     int up = 1;
     bool utlst = strcmp(tp, "utlst") == 0;	/* a utls client of a plain tls server: no UX socket there, the TLS leg is used */
     const char *proto = utlst ? "tls" : tp;
@@ -629,7 +639,42 @@ static void run(void)
     int cond[4] = { 0, -1, -1, XCM_SO_ACCEPTABLE };
     int idle_probes = 0;
 
+    /* accblk: the server socket is non-blocking; a raw client connects and says nothing (no ClientHello on the TLS
+       transports); the application accepts it with xcm.blocking = true in the accept map.  The call is one on a
+       non-blocking socket: it hands out the connection (or fails) without waiting for the silent peer.  A helper thread
+       closes the raw client after 300 ms, so that a library that does wait gets out again. */
+    if (accblk && so[3]) {
+	struct sockaddr_in sin = { .sin_family = AF_INET };
+	sin.sin_port = htons((unsigned short)atoi(strrchr(saddr, ':') + 1));
+	sin.sin_addr.s_addr = htonl(INADDR_LOOPBACK);
+	static int silent_fd;
+	silent_fd = socket(AF_INET, SOCK_STREAM, 0);
+	if (connect(silent_fd, (struct sockaddr *)&sin, sizeof(sin)) == 0) {
+	    struct pollfd p = { .fd = xcm_fd(so[3]), .events = POLLIN };
+	    poll(&p, 1, 1000);
+	    pthread_t th;
+	    pthread_create(&th, NULL, close_later, &silent_fd);
+	    struct xcm_attr_map *m = xcm_attr_map_create();
+	    xcm_attr_map_add_bool(m, "xcm.blocking", true);
+	    CALL_BEGIN(3);
+	    struct xcm_socket *c = xcm_accept_a(so[3], m);
+	    int err = errno;
+	    CALL_END();
+	    int w = shim_wait_seen();
+	    xcm_attr_map_destroy(m);
+	    emit("ac", 3, c ? 0 : -1, c ? 0 : err, 1, w);
+	    pthread_join(th, NULL);
+	    if (c) {
+		shim_enter(2);
+		xcm_close(c);
+		shim_leave();
+	    }
+	} else
+	    close(silent_fd);
+    }
     for (;;) {
+	if (accblk)
+	    break;
 	/* declare interest, as the documented protocol wants it */
 	for (int e = 1; e <= 2; e++) {
 	    if (!so[e] || term[e])
